@@ -191,3 +191,9 @@ Definition both_verdict (t : tree) (r : run_in) (xs xl : expect) : N :=
 Definition both_detail (t : tree) (r : run_in) :=
   (match drop_polls (run_one t config0 None (with_lazy r false) []) with Ok g => Ok (canon_graph g) | Err e => Err e | Panic x => Panic x | OutOfFuel => OutOfFuel end,
    match drop_polls (run_one t config0 None (with_lazy r true) []) with Ok g => Ok (canon_graph g) | Err e => Err e | Panic x => Panic x | OutOfFuel => OutOfFuel end).
+
+(* C05 (execution part): outcome of a run without debug attributes, either mode *)
+Definition c15_verdict0 (t : tree) (r : run_in) (x : expect) : N :=
+  compare_outcome (drop_polls (run_one t config0 None r [])) x.
+Definition c15_detail0 (t : tree) (r : run_in) :=
+  match drop_polls (run_one t config0 None r []) with Ok g => Ok (canon_graph g) | Err e => Err e | Panic x => Panic x | OutOfFuel => OutOfFuel end.
